@@ -5,3 +5,5 @@ import FeedVerif.Model.UriDriver
 import FeedVerif.Props.C04
 import FeedVerif.Model.OptionsDriver
 import FeedVerif.Props.C18
+import FeedVerif.Model.BaseDriver
+import FeedVerif.Props.C05
